@@ -69,10 +69,19 @@ class World(object):
             pne = ['0,0', '0,0', '4,1', '4,1', '4,1', '0,0']
             pnv = ['300', '310', '500', '510', '520', None]
             extra = [('$TIMESTEP', '0.01'), ('$BTIM', '10:00:00'), ('$ETIM', '10:00:30'), ('$DATE', '01-Jan-2020')]
-            for tag, dt in (('int', 'I'), ('float', 'F')):
+            for tag, dt in (('int', 'I'), ('float', 'F'), ('float2', 'F')):
                 p = os.path.join(self.dir, 'cells_%s_%s.fcs' % (inst, tag))
-                vals = ev.tolist() if dt == 'I' else [[float(v) + 0.25 for v in r] for r in ev]
-                fcsgen.write_sample(p, vals, names, [1024] * 6, bits=16, datatype=dt, pne=pne, pnv=pnv, extra=extra)
+                if dt == 'I':
+                    vals, fpne = ev.tolist(), pne
+                else:
+                    # float files: the third fluorescence channel is linear and holds negative (compensated) values;
+                    # the two float files differ in their most negative event
+                    vals = [[float(v) + 0.25 for v in r] for r in ev]
+                    shift = 260.0 if tag == 'float' else 330.0
+                    for r in vals:
+                        r[4] = r[4] - shift
+                    fpne = pne[:4] + ['0,0'] + pne[5:]
+                fcsgen.write_sample(p, vals, names, [1024] * 6, bits=16, datatype=dt, pne=fpne, pnv=pnv, extra=extra)
                 self.files[(inst, tag)] = os.path.basename(p)
             p = os.path.join(self.dir, 'cells_%s_short.fcs' % inst)
             fcsgen.write_sample(p, ev[:300].tolist(), names, [1024] * 6, bits=16, pne=pne, pnv=pnv, extra=extra)
@@ -104,7 +113,7 @@ class World(object):
         self._beads_cache = {}
 
     # ------------------------------------------------------------------ beads
-    def beads_table(self, fault='none', inst='A', rows=('BOK', 'BFAIL', 'BOTHER', 'BAMP', 'BVOLT', 'BNOCURVE')):
+    def beads_table(self, fault='none', inst='A', rows=('BOK', 'BNOMEF', 'BFAIL', 'BOTHER', 'BAMP', 'BVOLT', 'BNOCURVE')):
         fl = INSTR[inst]['fl']
         other = 'B' if inst == 'A' else 'A'
         mv = [', '.join(str(v) if v else 'None' for v in MEF[0]), ', '.join(str(v) if v else 'None' for v in MEF[1])]
@@ -121,6 +130,8 @@ class World(object):
         for rid in rows:
             if rid == 'BOK':
                 recs[rid] = row(inst, self.files[(inst, 'beads-ok')])
+            elif rid == 'BNOMEF':        # healthy beads row without any MEF values, listed right after a calibrated one
+                recs[rid] = row(inst, self.files[(inst, 'beads-ok')], m1=None, m2=None)
             elif rid == 'BFAIL':
                 if fault == 'none':
                     recs[rid] = row(inst, self.files[(inst, 'beads-ok')], cl=fl[0])
@@ -161,11 +172,12 @@ class World(object):
     # ------------------------------------------------------------------ samples
     SPELL = {'channel': ['Channel', 'channel', 'CHANNEL', ' Channel '], 'rfi': ['RFI', 'rfi', ' Rfi '], 'au': ['a.u.', 'au', 'A.U.', 'AU'],
              'mef': ['MEF', 'mef', 'Mef '], 'unknown': ['furlongs', 'MEFs'], 'empty': [None]}
-    BEADS_ROW = {'ok': 'BOK', 'failed': 'BFAIL', 'nocurve': 'BNOCURVE', 'other-inst': 'BOTHER', 'other-amp': 'BAMP', 'other-volt': 'BVOLT'}
+    BEADS_ROW = {'ok': 'BOK', 'nomef': 'BNOMEF', 'failed': 'BFAIL', 'nocurve': 'BNOCURVE', 'other-inst': 'BOTHER', 'other-amp': 'BAMP', 'other-volt': 'BVOLT'}
 
     def sample_row(self, r, inst='A', variant=0, frac_in=0.3):
         fl = INSTR[inst]['fl'] + INSTR[inst]['extra']
-        f = {'ok-int': self.files[(inst, 'int')], 'ok-float': self.files[(inst, 'float')], 'missing': 'no_such_file.fcs',
+        f = {'ok-int': self.files[(inst, 'int')], 'ok-float': self.files[(inst, 'float' if variant % 2 == 0 else 'float2')],
+             'missing': 'no_such_file.fcs',
              'short': self.files[(inst, 'short')]}[r['file']]
         frac = {'in': frac_in, 'above': 1.2, 'below': -0.1}[r['frac']]
         row = collections.OrderedDict([('Instrument ID', inst), ('Beads ID', self.BEADS_ROW[r['beads']]), ('File Path', f),
